@@ -56,6 +56,11 @@ def state_desc(rng, state, unique=None, n_files=None, exact=False):
         d["files"] = [fd_small(rng, "cas", unique) for _ in range(n_files if n_files is not None else rng.randint(1, 3))]
     elif state in ("tool_dsk", "peer_dsk"):
         d["files"] = [fd_small(rng, "dsk", unique) for _ in range(n_files if n_files is not None else rng.randint(1, 3))]
+        if rng.chance(0.06):
+            # an ASCII file longer than 65,535 bytes (it has no 16-bit length word)
+            big = fd_small(rng, "dsk", unique)
+            big.update({"ftype": rng.choice([0, 1, 3]), "dtype": 0xFF, "len": rng.choice([65536, 70000, 90000]), "content": rng.choice(["ascii", "counter"])})
+            d["files"] = d["files"][:1] + [big]
         if state == "peer_dsk" and n_files is None and rng.chance(0.35):
             d["files"].append(fd_small(rng, "dsk", unique))
             d["files"].append(fd_small(rng, "dsk", unique))
